@@ -693,9 +693,15 @@ pub fn run_once(c: &CaseSpec, rules: &[Rule], parallel: bool) -> RunRes {
             if s.actions.contains(&Act::Mark) {
                 let m = Arc::clone(&marks);
                 let key = format!("Out.mark_{}", s.name);
+                // in cases of 4, 8, 12 … rules the marking action of the second rule reports an error
+                // after doing its work (both paths get the same function)
+                let fails = i == 1 && c.rules.len() % 4 == 0;
                 engine.register_function(&format!("mark_{}", s.name), move |_args, facts| {
                     m[i].fetch_add(1, Ordering::SeqCst);
                     facts.set(&key, Value::Integer(1));
+                    if fails {
+                        return Err(rust_rule_engine::RuleEngineError::EvaluationError { message: "marking action reports an error".into() });
+                    }
                     Ok(Value::Null)
                 });
             }
